@@ -13,11 +13,11 @@ import (
 
 func init() {
 	register("C17",
-		"all 18 string / list builtin names of the statement are registered as functions; every parameter of each influences its result (data flow or a branch on it); none is wired to the antonym of its name (lower/upper, startWith/endWith via prefix/suffix primitives, left/right slice ends, lpad/rpad side of the padding, trim trims, replace replaces all occurrences, find/contains use Index/Contains on (s, t) in that order); the `first index == len(s)-len(t)` suffix idiom (wrong for repeated substrings) is absent. lower, upper, trim, replace, join, contains, find call their primitive on every path to a successful return.",
+		"all 18 string / list builtin names of the statement are registered as functions; every parameter of each influences its result (data flow or a branch on it); none is wired to the antonym of its name (lower/upper, startWith/endWith via prefix/suffix primitives, left/right slice ends, lpad/rpad side of the padding, trim trims, replace replaces all occurrences, find/contains use Index/Contains on (s, t) in that order); the `first index == len(s)-len(t)` suffix idiom (wrong for repeated substrings) is absent. lower, upper, trim, replace, join, contains, find call their primitive on every path to a successful return. Decided in addition: a constant cutset that reaches strings.Trim in `trim` holds all of unicode.IsSpace; a `regexp` result that bypasses the engine sits behind a guard over the complete set of syntax characters; compiled patterns may come from a memo table keyed by the pattern text (memo.go).",
 		"the algebraic laws of the statement themselves (prefix/suffix/slice/pad algebra, clamping, regexp = RE2): they are value-level.",
 		runC17)
 	register("C18",
-		"all 15 numeric builtin names are registered as functions; every parameter influences the result; `& | ^` compute the machine AND / OR / XOR of both operands' integer values and `~` the complement of its operand's integer value, each flowing into the returned number; abs/ceil/floor/sqrt/exp/ln/log/max/min call the decimal operation of their own name on their argument (ln -> Log, log -> Log10) and not the opposite one. The 64-bit integer results of & | ^ ~ and toInt enter the number without passing float64; toString's number arm returns the decimal's own rendering unmodified; abs/ceil/floor/sqrt/exp/ln/log/round/toInt reach their primitive on every successful path.",
+		"all 15 numeric builtin names are registered as functions; every parameter influences the result; `& | ^` compute the machine AND / OR / XOR of both operands' integer values and `~` the complement of its operand's integer value, each flowing into the returned number; abs/ceil/floor/sqrt/exp/ln/log/max/min call the decimal operation of their own name on their argument (ln -> Log, log -> Log10) and not the opposite one. The 64-bit integer results of & | ^ ~ and toInt enter the number without passing float64; toString's number arm returns the decimal's own rendering unmodified; abs/ceil/floor/sqrt/exp/ln/log/round/toInt reach their primitive on every successful path. Every strconv integer parse the evaluator reaches reads text in base 10.",
 		"numeric results (round within 1/2, roundBank ties-to-even, 15-digit accuracy of sqrt/exp/ln/log, toInt truncation).",
 		runC18)
 	register("C19",
@@ -456,6 +456,7 @@ func runC17(c *Ctx) {
 		{"regexp", []string{"regexp.MustCompile", "regexp.Compile", "regexp.MatchString", "regexp.Match"}, []string{"regexp.CompilePOSIX", "regexp.MustCompilePOSIX"}, "must match with RE2 (package regexp) syntax", false},
 	})
 	c.R.Floor("C17.antonyms", 12)
+	c17TrimSet(c)
 	// ... and hand the primitive's result back as it is (an index converted to a character count, a trimmed or
 	// re-cased string post-processed, is a different function)
 	for _, d := range []struct {
@@ -506,6 +507,7 @@ func runC17(c *Ctx) {
 	c.R.Floor("C17.primitive-result-unmodified", 5)
 	c17Shapes(c)
 	c17RegexpOwnPattern(c)
+	c17RegexpShortcut(c, "C17.regexp-shortcut-guard")
 	c17PositionsAreErrors(c, "C17.positions-reach-the-slice")
 }
 
@@ -987,6 +989,7 @@ func sliceShape(f *ssa.Function, fromStart bool) bool {
 // ---------- C18 ----------
 
 func runC18(c *Ctx) {
+	c18TextBase(c, "C18.text-is-read-in-base-10")
 	builtinRegistered(c, "C18.registered", specNumericBuiltins)
 	c.R.Floor("C18.registered", 15)
 	builtinRelevance(c, "C18.param-relevance", specNumericBuiltins, nil)
@@ -2056,8 +2059,10 @@ func c17RegexpOwnPattern(c *Ctx) {
 		}
 		return false
 	}
-	var fromPattern func(v ssa.Value, pat ssa.Value, depth int) (bool, string)
-	fromPattern = func(v ssa.Value, pat ssa.Value, depth int) (bool, string) {
+	// fromPattern: the value reached from v by the field path `under` (innermost first, as in Root.Path) is the pattern
+	// pat compiled
+	var fromPattern func(v ssa.Value, pat ssa.Value, under []string, depth int) (bool, string)
+	fromPattern = func(v ssa.Value, pat ssa.Value, under []string, depth int) (bool, string) {
 		if depth > 4 {
 			return false, "too deep"
 		}
@@ -2067,12 +2072,36 @@ func c17RegexpOwnPattern(c *Ctx) {
 		}
 		for _, rt := range rs {
 			call, isCall := rt.V.(*ssa.Call)
+			path := append(append([]string{}, rt.Path...), under...)
 			switch {
-			case rt.Kind == "call" && isCall && isCompile(rt.Fn) && len(rt.Path) == 0:
+			case rt.Kind == "call" && isCall && isCompile(rt.Fn) && len(path) == 0:
 				if call.Call.Args[0] != pat {
 					return false, "compiles " + describeValue(call.Call.Args[0]) + ", not the pattern argument"
 				}
-			case rt.Kind == "call" && isCall && rt.Fn != nil && c.inModule(rt.Fn) && len(rt.Path) == 0:
+			case rt.Kind == "alloc" && len(path) == 1:
+				// a fresh record with the compiled expression in a field
+				al, _ := rt.V.(*ssa.Alloc)
+				nst := 0
+				if al != nil && al.Referrers() != nil {
+					for _, r := range *al.Referrers() {
+						fa, ok := r.(*ssa.FieldAddr)
+						if !ok || fieldName(fa) != path[0] || fa.Referrers() == nil {
+							continue
+						}
+						for _, u := range *fa.Referrers() {
+							if st, ok := u.(*ssa.Store); ok && st.Addr == ssa.Value(fa) {
+								nst++
+								if !isCompileOf(st.Val, pat) {
+									return false, "the field " + path[0] + " of the record is set to " + describeValue(st.Val) + ", not to the compiled pattern argument"
+								}
+							}
+						}
+					}
+				}
+				if nst == 0 {
+					return false, "the field " + path[0] + " of the record is never set"
+				}
+			case rt.Kind == "call" && isCall && rt.Fn != nil && c.inModule(rt.Fn):
 				// a helper: which of its parameters receives the pattern
 				pi := -1
 				for i, a := range call.Call.Args {
@@ -2089,12 +2118,28 @@ func c17RegexpOwnPattern(c *Ctx) {
 					if !ok || rt.Idx >= len(ret.Results) || isNilConst(ret.Results[rt.Idx]) {
 						return
 					}
-					if ok2, w := fromPattern(ret.Results[rt.Idx], rt.Fn.Params[pi], depth+1); !ok2 {
+					if ok2, w := fromPattern(ret.Results[rt.Idx], rt.Fn.Params[pi], path, depth+1); !ok2 {
 						good, why = false, c.P.FuncKey(rt.Fn)+": "+w
 					}
 				})
 				if !good {
 					return false, why
+				}
+			case rt.Kind == "call" && isCall && rt.Fn != nil && (rt.Fn.String() == "(*sync.Map).Load" || rt.Fn.String() == "(*sync.Map).LoadOrStore") && rt.Idx == 0:
+				// a memo of compiled patterns keyed by the pattern text (memo.go): the entry found under p is
+				// Compile(p), whoever stored it
+				g, isG := call.Call.Args[0].(*ssa.Global)
+				var m *PureMemo
+				if isG {
+					m = c.isPureMemo(g)
+				}
+				switch {
+				case m == nil:
+					return false, "the compiled expression comes from " + rt.String() + ", which is not a memo of a function of its key"
+				case !(len(path) == 0 && m.CompileOf) && !(len(path) == 1 && m.CompileAt[path[0]]):
+					return false, "the memo " + g.Name() + " does not store regexp.Compile(<its key>)"
+				case stripIface(call.Call.Args[1]) != pat:
+					return false, "the memo is asked for " + describeValue(stripIface(call.Call.Args[1])) + ", not for the pattern argument"
 				}
 			default:
 				return false, "the compiled expression comes from " + rt.String()
@@ -2117,7 +2162,7 @@ func c17RegexpOwnPattern(c *Ctx) {
 		switch {
 		case strings.HasPrefix(name, "(*regexp.Regexp).Match"):
 			n++
-			good, why := fromPattern(call.Call.Args[0], pat, 0)
+			good, why := fromPattern(call.Call.Args[0], pat, nil, 0)
 			c.R.Check(rule, fmt.Sprintf("matcher#%d", n), c.P.InstrPos(in), good, "the expression that decides `regexp(s, p)` must be compiled from p in this very call: "+why+"; a remembered expression can belong to an earlier pattern (after a failed compile the memo and its key disagree)")
 		case name == "regexp.MatchString" || name == "regexp.Match":
 			n++
